@@ -188,6 +188,12 @@ def gen_case(rng, junk=False):
             sup.append(derived_suppress(rng, rng.choice(fbs)))
         else:
             sup.append(gen_suppress(rng))
+    if fbs and rng.random() < 0.3:
+        # several suppressions aimed at ONE feedback (whole category + that label with other fields, twice the same label with
+        # different field sets, ...), in either order: any one of them that matches suppresses it
+        fb = rng.choice(fbs)
+        sup += [derived_suppress(rng, fb) for _ in range(rng.choice([2, 2, 3]))]
+        rng.shuffle(sup)
     return {'feedbacks': fbs, 'suppress': sup, 'other_report': rng.random() < 0.2}
 
 
@@ -461,6 +467,17 @@ def correspondence(ctx):
         v = oracle(ctx.pid, case, out)
         if v:
             ctx.violation(v[0], {'case': case, 'observed': out['simple'], 'snapshots': snaps, 'why': v[1]})
+        # the same report resolved once more: the same feedback chosen, the same verdict, the same score
+        again = out.get('simple_again')
+        if again is not None and 'raise' not in out['simple']:
+            fields = {'C01': ('used', 'title', 'message', 'label', 'category', 'is_default'), 'C02': ('correct', 'success', 'json_correct'),
+                      'C03': ('score', 'scores', 'resolved_scores')}[ctx.pid]
+            diff = ['raise'] if 'raise' in again else [k for k in fields if again.get(k) != out['simple'].get(k)]
+            if diff:
+                ctx.violation('second-resolve-differs', {'case': case, 'first': {k: out['simple'].get(k) for k in fields}, 'second': again if 'raise' in again else {k: again.get(k) for k in fields},
+                                                         'feedback_lists_after': out.get('n_feedback_after'),
+                                                         'why': 'resolving the same report a second time gives a different %s: %s then %s'
+                                                                % (', '.join(diff), [out['simple'].get(k) for k in diff], [again.get(k) for k in diff])})
         # skip float-rounding-sensitive totals in the model comparison
         if 'raise' not in out['simple']:
             tot = sum((Fraction(0),) )
